@@ -35,6 +35,7 @@ type target struct {
 	funcs []string // functions (or Recv.Method) to translate, in dependency order
 	out   string   // Lean module name under GoSSE.Gen
 	joins bool     // code after an `if` that both branches reach becomes a definition of its own when it is more than one statement
+	prune []string // structs declared with only the fields the target's functions select (the others: Unit)
 }
 
 var targets = []target{
@@ -69,6 +70,8 @@ var targets = []target{
 	{dir: ".", files: []string{"message.go", "message_fields.go"}, funcs: []string{"messageField.Scan", "messageField.UnmarshalJSON", "messageField.MarshalText"}, out: "FieldRoutes"},
 	// Server.Publish's topic defaulting
 	{dir: ".", files: []string{"server.go"}, funcs: []string{"getTopics"}, out: "Server"},
+	// what a reconnection attempt does to the request: the body re-obtained, the Last-Event-ID header set or removed
+	{dir: ".", files: []string{"client.go", "client_connection.go", "event.go"}, funcs: []string{"resetRequestBody", "Connection.resetRequest"}, out: "Reset", prune: []string{"Connection"}},
 	// the client's back-off controller (float64 as an abstract carrier, the PRNG as the list of its draws, the clock as a parameter)
 	{dir: ".", files: []string{"client.go", "client_connection.go", "event.go"}, funcs: []string{"nextInterval", "growInterval", "backoffController.reset", "backoffController.next"}, out: "Backoff"},
 }
@@ -106,6 +109,7 @@ type tr struct {
 	files          []*ast.File
 	sigmaStructs   map[string]bool       // structs with a MessageWriter inside: structure S (σ : Type)
 	phiStructs     map[string]bool       // structs with a float64 inside: structure S (φ : Type)
+	pruned         map[string]map[string]bool // structs declared with only the fields the target's functions select (the rest: Unit)
 	nowParam       bool                  // the current function reads the clock once: parameter (now : Int)
 	extraTy        map[*types.Var]string // Lean types of synthetic variables (the accumulator of an iterator)
 	yieldVar       *types.Var            // in an iterator: the yield parameter …
@@ -217,7 +221,10 @@ func (t *tr) leanType(ty types.Type, at ast.Node) string {
 			return "(ResW σ)" // any response writer: a state and what Write / Flush / Header()[k] = v do
 		}
 		if u.Obj().Pkg() != nil && u.Obj().Pkg().Path() == "net/http" && u.Obj().Name() == "Request" {
-			return "Unit" // the request a Session keeps for its user: not looked at by the translated code
+			return "HttpReq" // GoRT.HttpReq: body, GetBody, header
+		}
+		if u.Obj().Pkg() != nil && u.Obj().Pkg().Path() == "io" && u.Obj().Name() == "ReadCloser" {
+			return "BodyV" // a request body: nil, http.NoBody, or a reader identified by a tag
 		}
 		if u.Obj().Pkg() != nil && u.Obj().Pkg().Path() == "bufio" && u.Obj().Name() == "SplitFunc" {
 			return "(Bytes → Bool → GoM (Int × (Option Bytes) × (Option String)))"
@@ -246,6 +253,9 @@ func (t *tr) leanType(ty types.Type, at ast.Node) string {
 				return "(" + name + " " + strings.Join(args, " ") + ")"
 			}
 			t.structs[name] = st
+			if t.pruned[name] != nil {
+				return name
+			}
 			if t.hasSigma(st, map[*types.Struct]bool{}) {
 				t.sigmaStructs[name] = true
 				return "(" + name + " σ)"
@@ -307,6 +317,20 @@ func (t *tr) leanType(ty types.Type, at ast.Node) string {
 	}
 	die(t.pos(at), "type %s", ty)
 	return ""
+}
+
+// isHTTPReq: an expression of type *http.Request
+func (t *tr) isHTTPReq(x ast.Expr) bool {
+	tv, ok := t.info.Types[x]
+	if !ok {
+		return false
+	}
+	pt, ok := tv.Type.(*types.Pointer)
+	if !ok {
+		return false
+	}
+	n, ok := pt.Elem().(*types.Named)
+	return ok && n.Obj().Pkg() != nil && n.Obj().Pkg().Path() == "net/http" && n.Obj().Name() == "Request"
 }
 
 // isRandRand: math/rand.Rand
@@ -384,6 +408,9 @@ func (t *tr) hasSigma(st *types.Struct, seen map[*types.Struct]bool) bool {
 func (t *tr) fieldType(f *types.Var, at ast.Node) string {
 	if p, ok := f.Type().(*types.Pointer); ok {
 		if n, ok := p.Elem().(*types.Named); ok && n.Obj().Pkg() != nil && n.Obj().Pkg().Path() == "net/http" {
+			if n.Obj().Name() == "Request" {
+				return "(Option HttpReq)"
+			}
 			return "Unit"
 		}
 		if isRandRand(p.Elem()) {
@@ -623,6 +650,9 @@ func (t *tr) expr(e *em, x ast.Expr) string {
 		}
 		// pkg.ErrX: an error value of another package is identified by its qualified name
 		if id, ok := v.X.(*ast.Ident); ok {
+			if pn, isPkg := t.info.Uses[id].(*types.PkgName); isPkg && pn.Imported().Path() == "net/http" && v.Sel.Name == "NoBody" {
+				return "BodyV.noBody"
+			}
 			if _, isPkg := t.info.Uses[id].(*types.PkgName); isPkg {
 				if vv, ok := t.info.Uses[v.Sel].(*types.Var); ok && t.leanType(vv.Type(), x) == "(Option String)" {
 					return fmt.Sprintf("(some %q)", id.Name+"."+v.Sel.Name)
@@ -687,6 +717,12 @@ func (t *tr) expr(e *em, x ast.Expr) string {
 			return n
 		}
 		if id, ok := v.Y.(*ast.Ident); ok && id.Name == "nil" && (v.Op == token.EQL || v.Op == token.NEQ) {
+			if n, ok := t.info.Types[v.X].Type.(*types.Named); ok && n.Obj().Pkg() != nil && n.Obj().Pkg().Path() == "io" && n.Obj().Name() == "ReadCloser" {
+				if v.Op == token.NEQ {
+					return "(" + t.expr(e, v.X) + " != BodyV.nil)"
+				}
+				return "(" + t.expr(e, v.X) + " == BodyV.nil)"
+			}
 			if iface, ok := t.info.Types[v.X].Type.Underlying().(*types.Interface); ok && iface.NumMethods() == 0 {
 				if v.Op == token.NEQ {
 					return "(!(anyIsNil " + t.expr(e, v.X) + "))"
@@ -937,6 +973,30 @@ func (t *tr) call(e *em, v *ast.CallExpr) string {
 			die(t.pos(v), "conversion %s → %s", from, to)
 		}
 		return t.expr(e, v.Args[0])
+	}
+	if sel, ok := v.Fun.(*ast.SelectorExpr); ok && len(v.Args) == 0 && sel.Sel.Name == "GetBody" && t.isHTTPReq(sel.X) {
+		// r.GetBody(): the request's own function; the request counts its calls
+		r := t.fresh("gb")
+		e.line("let %s ← httpGetBody %s", r, t.derefIfOpt(e, sel.X))
+		t.assignTo(e, sel.X, r+".2.2", false)
+		res := t.fresh("gbr")
+		e.line("let %s : BodyV × (Option String) := (%s.1, %s.2.1)", res, r, r)
+		return res
+	}
+	if sel, ok := v.Fun.(*ast.SelectorExpr); ok && (sel.Sel.Name == "Del" || sel.Sel.Name == "Set") {
+		if tv, ok := t.info.Types[sel.X]; ok {
+			if n, ok := tv.Type.(*types.Named); ok && n.Obj().Pkg() != nil && n.Obj().Pkg().Path() == "net/http" && n.Obj().Name() == "Header" {
+				h := t.expr(e, sel.X)
+				if sel.Sel.Name == "Del" && len(v.Args) == 1 {
+					t.assignTo(e, sel.X, "(headerDel "+h+" "+t.expr(e, v.Args[0])+")", false)
+					return "()"
+				}
+				if sel.Sel.Name == "Set" && len(v.Args) == 2 {
+					t.assignTo(e, sel.X, "(headerSet "+h+" "+t.expr(e, v.Args[0])+" "+t.expr(e, v.Args[1])+")", false)
+					return "()"
+				}
+			}
+		}
 	}
 	if t.isPkgFunc(v, "encoding/json", "Unmarshal") && len(v.Args) == 2 {
 		// json.Unmarshal(data, &s) into a string: what encoding/json decodes is a parameter of the translated function
@@ -1674,7 +1734,11 @@ func (t *tr) genericCall(e *em, callee string, recv ast.Expr, v *ast.CallExpr) s
 			continue
 		}
 		if isPlace(b.x) {
-			t.assignTo(e, b.x, proj(fs.nres+j), false)
+			if t.isOptPtr(b.x) {
+				t.assignTo(e, b.x, "(some "+proj(fs.nres+j)+")", false) // the pointer (dereferenced for the call) to the value handed back
+			} else {
+				t.assignTo(e, b.x, proj(fs.nres+j), false)
+			}
 		} else if b.mod {
 			die(t.pos(v), "in/out value %s is changed by %s and is not an assignable place", types.ExprString(b.x), callee)
 		}
@@ -1908,6 +1972,14 @@ func (t *tr) assignTo(e *em, lhs ast.Expr, val string, define bool) {
 		base, ok := l.X.(*ast.Ident)
 		if sl, okSel := t.info.Selections[l]; !ok || (okSel && len(sl.Index()) > 1) {
 			// x.a.b = v: x.a is replaced by itself with b updated; a promoted field goes through the embedded structs
+			if okSel && t.isOptPtr(l.X) && len(sl.Index()) == 1 {
+				// p.f = v where p is a pointer that may be nil (a struct field): p is dereferenced (nil panics), p becomes
+				// the same pointer to the updated value
+				pv := t.fresh("p")
+				e.line("let %s ← derefPtr %s", pv, t.expr(e, l.X))
+				t.assignTo(e, l.X, fmt.Sprintf("(some { %s with %s := %s })", pv, fieldName(l.Sel.Name), val), false)
+				return
+			}
 			if !okSel || t.isOptPtr(l.X) {
 				die(t.pos(lhs), "assignment to %s", types.ExprString(lhs))
 			}
@@ -3396,6 +3468,20 @@ func (t *tr) structDecl(out *em, name string, st *types.Struct) {
 		out.line("")
 		return
 	}
+	if acc := t.pruned[name]; acc != nil {
+		// a struct of which the translated functions use a few fields only: the others are opaque
+		out.line("structure %s where", name)
+		for i := 0; i < st.NumFields(); i++ {
+			f := st.Field(i)
+			ty := "Unit"
+			if acc[f.Name()] {
+				ty = t.fieldType(f, nil)
+			}
+			out.line("  %s : %s", fieldName(f.Name()), ty)
+		}
+		out.line("")
+		return
+	}
 	if t.sigmaStructs[name] {
 		out.line("structure %s (σ : Type) where", name)
 	} else if t.phiStructs[name] {
@@ -3489,6 +3575,29 @@ func main() {
 				}
 			}
 		}
+		t.pruned = map[string]map[string]bool{}
+		for _, pn := range tg.prune {
+			acc := map[string]bool{}
+			for _, fn := range tg.funcs {
+				if fd := decls[fn]; fd != nil {
+					ast.Inspect(fd.Body, func(n ast.Node) bool {
+						if se, ok := n.(*ast.SelectorExpr); ok {
+							if sl, ok := info.Selections[se]; ok && sl.Kind() == types.FieldVal {
+								rt := sl.Recv()
+								if p, ok := rt.(*types.Pointer); ok {
+									rt = p.Elem()
+								}
+								if nn, ok := rt.(*types.Named); ok && nn.Obj().Name() == pn {
+									acc[se.Sel.Name] = true
+								}
+							}
+						}
+						return true
+					})
+				}
+			}
+			t.pruned[pn] = acc
+		}
 		body := &em{}
 		for _, fn := range tg.funcs {
 			fd, ok := decls[fn]
@@ -3523,6 +3632,9 @@ func main() {
 			done[n] = true
 			st := t.structs[n]
 			for i := 0; i < st.NumFields(); i++ {
+				if acc := t.pruned[n]; acc != nil && !acc[st.Field(i).Name()] {
+					continue // an opaque field of a pruned struct: its type is not needed
+				}
 				ft := st.Field(i).Type()
 				for {
 					if sl, ok := ft.(*types.Slice); ok {
